@@ -82,6 +82,14 @@ class Engine:
         if cv.kind != "fn":
             return ""
         top = cv.qualname.split(".")[0]
+        if cv.cls == "Evaluator" or top == "Evaluator":
+            # the boundaries of the interpreter are the methods lark dispatches to - one per grammar rule - and
+            # evaluate(); helpers they call (function_eval, private methods, closures) belong to their caller, so
+            # that extracting or renaming a helper does not create a new boundary
+            parts = cv.qualname.split(".")
+            if len(parts) >= 2 and (parts[1] in self.g.rules or parts[1] in ("evaluate", "set_activation")):
+                return ".".join(parts[:2])
+            return ""
         if cv.cls in TAG_CLASSES or top in TAG_CLASSES:
             return ".".join(cv.qualname.split(".")[:2])
         if cv.module == "evaluation" and (top in TAG_FUNCS or top.startswith(TAG_FUNCS_PREFIX)):
@@ -206,8 +214,8 @@ class Engine:
             combos = [c + [o] for c in combos for o in opts]
         return combos
 
-    def origins(self, key: Tuple, eff: Eff) -> List[str]:
-        """Every leaf site (line-number free) from which ``eff`` can reach the context ``key``."""
+    def origin_sites(self, key: Tuple, eff: Eff) -> List[Tuple[str, str]]:
+        """Every leaf from which ``eff`` can reach the context ``key``: (what raises, function it sits in)."""
         seen, out, todo = set(), set(), [(key, eff)]
         while todo:
             node = todo.pop()
@@ -216,10 +224,14 @@ class Engine:
             seen.add(node)
             for src in self.srcs.get(node, ()):
                 if src[0] == "leaf":
-                    out.add(src[1])
+                    out.add((src[1], src[2] if len(src) > 2 else ""))
                 else:
                     todo.append((self.alias.get(src[1], src[1]), src[2]))
         return sorted(out)
+
+    def origins(self, key: Tuple, eff: Eff) -> List[str]:
+        """What raises (line-number and function-name free): robust under moving code between functions."""
+        return sorted({k for k, _fn in self.origin_sites(key, eff)})
 
     def explain(self, key: Tuple, eff: Eff) -> str:
         return self.why.get((key, eff), "")
